@@ -1234,13 +1234,26 @@ impl<'a> Exchange<'a> {
         // counter value replayed. Writes happen once per
         // `GROUP_DATA_CTR_EPOCH` messages, not per message.
         if let Some(boundary) = boundary {
-            kv.access(|store, buf| {
+            let stored = kv.access(|store, buf| {
                 store.store(
                     crate::persist::GROUP_DATA_COUNTER_KEY,
                     &boundary.to_le_bytes(),
                     buf,
                 )
-            })?;
+            });
+
+            if let Err(err) = stored {
+                // The boundary is not durable: take the reservation back, or
+                // the next ones would go out not covered by any stored
+                // boundary and be replayed after a restart.
+                matter.with_state(|state| {
+                    state
+                        .sessions
+                        .unreserve_global_group_data_ctr(group_data_ctr)
+                });
+
+                return Err(err);
+            }
 
             debug!(
                 "Group data message counter boundary persisted: {}",
